@@ -1,18 +1,18 @@
 (* C01 / C02 / C14 - translator obligations: input-section statements and pads *)
-From Slinky Require Import Model.Types Model.Generated Model.Style Model.Script Proofs.Tables.
+From Slinky Require Import Model.Types Model.Generated Model.Style Model.Script Proofs.TablesC01.
 Local Open Scope string_scope.
 
 Theorem C01_tables_input_object : forall keep path sect wild,
   render_input keep path None sect wild =
-  fmt (tpl fmt_lw 21) [if keep then "KEEP(" else ""; path; sect; if wild then "*" else ""; if keep then ")" else ""].
+  fmt t_lw_emit_file_0 [if keep then "KEEP(" else ""; path; sect; if wild then "*" else ""; if keep then ")" else ""].
 Proof. exact lw_input_object. Qed.
 
 Theorem C01_tables_input_archive : forall keep path sub sect wild,
   render_input keep path (Some sub) sect wild =
-  fmt (tpl fmt_lw 22) [if keep then "KEEP(" else ""; path; sub; sect; if wild then "*" else ""; if keep then ")" else ""].
+  fmt t_lw_emit_file_1 [if keep then "KEEP(" else ""; path; sub; sect; if wild then "*" else ""; if keep then ")" else ""].
 Proof. exact lw_input_archive. Qed.
 
-Theorem C01_tables_pad : forall ind n, render_stmt ind (SDotAdd n) = [indent_str ind ++ fmt (tpl fmt_lw 23) [hex_of_N n]].
+Theorem C01_tables_pad : forall ind n, render_stmt ind (SDotAdd n) = [indent_str ind ++ fmt t_lw_emit_file_2 [hex_of_N n]].
 Proof. exact lw_pad. Qed.
 
 Print Assumptions C01_tables_input_object.
